@@ -14,7 +14,7 @@ CFG = dict(
     gen=[dict(tool="facts", mode="c11.skeleton", out="NodeSkeleton.lean")],
     modules=["PolyVerif.Props.C11", "PolyVerif.Props.C11Src"],
     theorems=[# Props/C11Src.lean: the model's Outdated() is the regenerated decision list of struct_node.go (engine F)
-              "outdated_from_source", "process_from_source", "value_state_from_source", "flag_stores_from_source",
+              "outdated_from_source", "process_from_source", "value_state_from_source", "flag_stores_from_source", "deps_enumeration_from_source",
               "reachable_inv", "spec_is_from_scratch", "outdated_is_outdated", "eval_is_value",
               "read_fresh", "processed_is_fresh", "eval_frame", "exec_only_if_outdated", "exec_only_if_changed",
               "version_counts_executions", "struct_version_counts_executions", "version_step_exact", "remembered_length",
